@@ -1,5 +1,5 @@
 use crate::{
-    geometry::Point,
+    geometry::{Dimensions, Point},
     primitives::{
         common::Scanline,
         rounded_rectangle::{RoundedRectangle, RoundedRectangleContains},
@@ -53,41 +53,52 @@ impl Iterator for Scanlines {
     type Item = Scanline;
 
     fn next(&mut self) -> Option<Self::Item> {
-        let columns = self.rounded_rectangle.columns.clone();
-        let y = self.rounded_rectangle.rows.next()?;
+        loop {
+            let columns = self.rounded_rectangle.columns.clone();
+            let y = self.rounded_rectangle.rows.next()?;
 
-        let x_start = if y < self.rounded_rectangle.straight_rows_left.start {
-            columns
-                .clone()
-                .find(|x| self.rounded_rectangle.top_left.contains(Point::new(*x, y)))
-        } else if y >= self.rounded_rectangle.straight_rows_left.end {
-            columns.clone().find(|x| {
-                self.rounded_rectangle
-                    .bottom_left
-                    .contains(Point::new(*x, y))
-            })
-        } else {
-            None
+            let left_quadrant = if y < self.rounded_rectangle.straight_rows_left.start {
+                Some(&self.rounded_rectangle.top_left)
+            } else if y >= self.rounded_rectangle.straight_rows_left.end {
+                Some(&self.rounded_rectangle.bottom_left)
+            } else {
+                None
+            };
+
+            // Rows in thin corners can contain no points inside the corner quadrant. In this case
+            // the scanline starts at the first column which doesn't belong to the quadrant.
+            let x_start = left_quadrant.map_or(columns.start, |quadrant| {
+                let quadrant_columns = quadrant.bounding_box().columns();
+
+                quadrant_columns
+                    .clone()
+                    .find(|x| quadrant.contains(Point::new(*x, y)))
+                    .unwrap_or(quadrant_columns.end)
+            });
+
+            let right_quadrant = if y < self.rounded_rectangle.straight_rows_right.start {
+                Some(&self.rounded_rectangle.top_right)
+            } else if y >= self.rounded_rectangle.straight_rows_right.end {
+                Some(&self.rounded_rectangle.bottom_right)
+            } else {
+                None
+            };
+
+            let x_end = right_quadrant.map_or(columns.end, |quadrant| {
+                let quadrant_columns = quadrant.bounding_box().columns();
+
+                quadrant_columns
+                    .clone()
+                    .rfind(|x| quadrant.contains(Point::new(*x, y)))
+                    .map(|x| x + 1)
+                    .unwrap_or(quadrant_columns.start)
+            });
+
+            // Skip empty rows.
+            if x_start < x_end {
+                return Some(Scanline::new(y, x_start..x_end));
+            }
         }
-        .unwrap_or(columns.start);
-
-        let x_end = if y < self.rounded_rectangle.straight_rows_right.start {
-            columns
-                .clone()
-                .rfind(|x| self.rounded_rectangle.top_right.contains(Point::new(*x, y)))
-        } else if y >= self.rounded_rectangle.straight_rows_right.end {
-            columns.clone().rfind(|x| {
-                self.rounded_rectangle
-                    .bottom_right
-                    .contains(Point::new(*x, y))
-            })
-        } else {
-            None
-        }
-        .map(|x| x + 1)
-        .unwrap_or(columns.end);
-
-        Some(Scanline::new(y, x_start..x_end))
     }
 }
 
